@@ -806,6 +806,7 @@ impl World {
                 from_recaps: false,
                 born_event: self.stats.events as usize - 1,
                 pol: Some((pol.ast.clone(), self.epoch)),
+                mpk_version: self.encryptors[e].mpk.as_ref().map(|m| m.1.version).unwrap_or(0),
             });
         }
     }
@@ -883,7 +884,9 @@ impl World {
         // encapsulation, the rights-level prediction must equal the name-level cover relation of
         // C01/C02 (two independent implementations of the statement).
         if let (Some((up, ue)), Some((ep, ee))) = (&self.users[user].pol, &s.pol) {
-            if *ue == self.epoch && *ee == self.epoch && self.auth.mmpk.structure == self.auth.m.structure {
+            // exact only when key, MPK and encapsulation all come from the state produced by the
+            // last update, with no edit, rotation, restore or refresh since
+            if *ue == self.epoch && *ee == self.epoch && self.last_update.0 == self.epoch && s.mpk_version >= self.last_update.1 {
                 let name_level = self.auth.m.structure.policy_covers(up, ep);
                 *self.stats.checks.entry("model-self-check").or_default() += 1;
                 if name_level != expect_open {
@@ -1561,6 +1564,7 @@ impl World {
                     from_recaps: true,
                     born_event: self.stats.events as usize - 1,
                     pol: None,
+                    mpk_version: 0,
                 });
                 // Decaps matrix of the output, immediately.
                 let new_slot = self.slots.len() - 1;
